@@ -123,6 +123,12 @@ func c13Faults() []faultForm {
 		{"unknown-property-repeated-name", "{{ zzO = {a: 1} }}{{ zzO.a }}\n\n{{ zzO.nosuch }}{{-- zzFault --}}", false},
 		{"unknown-function-repeated-name", "{{ zzQ = 4 }}{{ zzQ.str() }}\n\n{{ zzQ.nosuchfn() }}{{-- zzFault --}}", false},
 		{"unknown-function-repeated-function-name", "@if(false){{ 1.zzFn() }}@end\n\n{{ 2.zzFn() }}{{-- zzFault --}}", false},
+		// faults whose identifying construct is a loop directive that ends on a later line: the line is that of the directive
+		{"each-over-non-array-multi-line-loop", "@each(zzV in 'zzFault')\nx\ny\n@end", false},
+		{"each-over-non-array-multi-line-loop", "@each(zzV in 5){{-- zzFault --}}\nx\n@else\ny\n@end", false},
+		{"each-variable-named-loop-multi-line-loop", "@each(loop in ['zzFault'])\nx\n@end", false},
+		{"each-variable-retyped-multi-line-loop", "{{ zzW = 1 }}@each(zzW in ['zzFault'])\nx\n\n@end", false},
+		{"for-post-retypes-multi-line-loop", "@for(zzI = 0; zzI < 3; zzI = 'zzFault')\nx\n@end", false},
 		// an unknown name at every position an expression can stand in: the line is that of the name
 		{"unknown-identifier-at-shorthand-property", "{{ zzO2 = { zzFault } }}", false},
 		{"unknown-identifier-at-shorthand-property", "{{ zzA2 = 1 }}\n{{ { zzA2, zzFault } }}", false},
